@@ -13,22 +13,30 @@ pub fn insert_keyword_statement_terminators(input: Vec<Token>, _file_id: &FileId
 
     let mut in_end_statement = false;
     for tok in input {
-        if !in_end_statement && tok.token_type == TokenType::EndIf {
+        if in_end_statement {
+            match tok.token_type {
+                // Keep looking for the terminator
+                TokenType::Comment | TokenType::Whitespace => {}
+                // The statement is explicitly terminated
+                TokenType::Semicolon => in_end_statement = false,
+                _ => {
+                    // TODO remove the span and line/col
+                    output.push(Token {
+                        token_type: TokenType::Semicolon,
+                        span: tok.span.clone(),
+                        line: tok.line,
+                        col: tok.col,
+                        text: "".to_owned(),
+                    });
+                    in_end_statement = false;
+                }
+            }
+        }
+
+        // The token that ends one END_IF can itself be an END_IF (nested IF
+        // statements closed on the same line) that needs its own terminator.
+        if tok.token_type == TokenType::EndIf {
             in_end_statement = true;
-        } else if in_end_statement
-            && tok.token_type != TokenType::Semicolon
-            && tok.token_type != TokenType::Comment
-            && tok.token_type != TokenType::Whitespace
-        {
-            // TODO remove the span and line/col
-            output.push(Token {
-                token_type: TokenType::Semicolon,
-                span: tok.span.clone(),
-                line: tok.line,
-                col: tok.col,
-                text: "".to_owned(),
-            });
-            in_end_statement = false;
         }
 
         output.push(tok);
